@@ -6,6 +6,7 @@ def latticeDispatch : Dispatch := fun op j =>
   match op with
   | "lat.nsites" => some (Lattice.opNsites j)
   | "lat.adj" => some (Lattice.opAdj j)
+  | "lat.shift" => some (Lattice.opShift j)
   | "lat.i2c" => some (Lattice.opI2c j)
   | "lat.c2i" => some (Lattice.opC2i j)
   | _ => none
